@@ -14,7 +14,7 @@ Structural clauses decided (DESIGN.md section 5/C09):
 """
 import ast
 
-from ..engine import Analysis, is_call_to, is_suspension, short, where_fn
+from ..engine import Analysis, is_call_to, is_suspension, short, where_fn, key_truth
 from ..model import AnalysisError
 from ..paths import SIGNALS
 from ..types import Callee
@@ -25,22 +25,43 @@ LOCK = 'usim._primitives.locks.Lock'
 NOTIFICATION = 'usim._primitives.notification.Notification'
 
 
-def _owner_compare(event, fn, ops=(ast.Eq, ast.Is, ast.IsNot, ast.NotEq)):
-    """('same'|'differs', ...) if the test compares self._owner with the current activity"""
+def _activity_read_position(path, index, expr):
+    """position in the path at which ``expr`` read `loop.activity`, or None"""
+    event = path.events[index]
+    text = rules.normalise_state_aliases(ast.unparse(expr))
+    if text == rules.CURRENT_ACTIVITY or text == 'loop.activity' and \
+            rules.value_text(path, index, expr) == rules.CURRENT_ACTIVITY:
+        return index
+    if isinstance(expr, ast.Name):
+        bind = event.data.get('bind')
+        if bind and expr.id in bind:
+            arg, enter_index = bind[expr.id]
+            return _activity_read_position(path, enter_index, arg)
+        found = rules.reaching_store(path, index, expr.id)
+        if found is not None and found[1].data.get('value') is not None:
+            return _activity_read_position(path, found[0], found[1]['value'])
+    elif rules.value_text(path, index, expr) == rules.CURRENT_ACTIVITY:
+        return index
+    return None
+
+
+def _owner_compare(event, path, index, ops=(ast.Eq, ast.Is, ast.IsNot, ast.NotEq)):
+    """('same'|'differs', read position) if the test compares the owner with the activity"""
     node = event.node
     if not (isinstance(node, ast.Compare) and len(node.ops) == 1
             and isinstance(node.ops[0], ops)):
         return None
     left, right = node.left, node.comparators[0]
-    texts = (ast.unparse(left), ast.unparse(right))
+    texts = (rules.value_text(path, index, left), rules.value_text(path, index, right))
     if 'self._owner' not in texts:
         return None
     other = right if texts[0] == 'self._owner' else left
-    if not rules.is_current_activity(other, fn):
+    read_at = _activity_read_position(path, index, other)
+    if read_at is None:
         return None
     equal_op = isinstance(node.ops[0], (ast.Eq, ast.Is))
     value = event['value']
-    return 'same' if value == equal_op else 'differs'
+    return ('same' if value == equal_op else 'differs'), read_at
 
 
 def check_waiting_fifo(check, an: Analysis, rule='F'):
@@ -125,8 +146,8 @@ def run(check, an: Analysis):
             if event.kind == 'store' and event['path'] == 'self._owner' and event.depth == 0:
                 n_take += 1
                 free = rules.fact_value(event, ('isnone', 'self._owner'))
-                value_ok = event['value'] is not None and \
-                    rules.is_current_activity(event['value'], fn_enter)
+                value_ok = event['value'] is not None and rules.value_text(
+                    path, index, event['value']) == rules.CURRENT_ACTIVITY
                 check.instance(
                     'X', 'take:__aenter__@%s' % ('free' if free else 'not-free'),
                     bool(free) and value_ok, event.where,
@@ -139,25 +160,19 @@ def run(check, an: Analysis):
     for path in an.paths(release):
         for index, event in enumerate(path.events):
             if event.kind == 'store' and event['path'] == 'self._owner':
-                value = event['value']
                 handler = any(e.kind == 'handler' and 'NoSubscribers' in e['exc']
                               for e in path.events[:index])
                 awoken = any(is_call_to(e, '__awake_next__') and e.get('exit') == 'normal'
                              for e in path.events[:index])
-                if isinstance(value, ast.Constant) and value.value is None:
+                source = _stored_source(path, index, event['value'])
+                if source == 'none':
                     ok = handler and not awoken
                     what = 'None stored only when there is no waiter (NoSubscribers handler)'
                 else:
-                    source = rules.local_values(release.fn, ast.unparse(value)) \
-                        if isinstance(value, ast.Name) else []
-                    ok = awoken and not handler and isinstance(value, ast.Name)
-                    what = 'next owner is the waiter returned by __awake_next__'
-                    if ok:
-                        # the stored name must be the *first* element of the awoken pair
-                        ok = _first_of_awake_next(release.fn, value.id)
-                check.instance('X', 'release:%s' % ('None' if isinstance(
-                    value, ast.Constant) else 'next'), ok, event.where, what,
-                    path=rules.path_lines(path, index))
+                    ok = awoken and not handler and source == 'next-waiter'
+                    what = 'next owner is the waiter returned by __awake_next__ (%s)' % source
+                check.instance('X', 'release:%s' % ('None' if source == 'none' else 'next'),
+                               ok, event.where, what, path=rules.path_lines(path, index))
     for path in an.paths(release):
         if not path.normal:
             continue
@@ -184,17 +199,14 @@ def run(check, an: Analysis):
             reraised = path.kind == 'raise' and path.outcome[1].cls == cls
             designation = None
             fresh_read = False
-            for later in rest:
+            for offset, later in enumerate(rest):
                 if later.kind == 'test':
-                    found = _owner_compare(later, fn_enter)
+                    found = _owner_compare(later, path, index + 1 + offset)
                     if found:
-                        designation = found
-                        node = later.node
-                        other = node.comparators[0] if ast.unparse(node.left) == \
-                            'self._owner' else node.left
+                        designation, read_at = found
                         # `loop.activity` read *after* the wait: when the waiter is closed
                         # by force, the running activity is the one that closes it
-                        fresh_read = not isinstance(other, ast.Name)
+                        fresh_read = read_at > index
             released = any(is_call_to(e, '__release__') for e in rest)
             if not reraised:
                 ok, what = False, 'the signal does not leave __aenter__ unchanged'
@@ -255,12 +267,14 @@ def run(check, an: Analysis):
                      and e['path'] == 'self._depth' and e.depth == 0]
             zero = [e for e in path.events if e.kind == 'test' and
                     e.get('key') == ('eq', 'self._depth', '0')]
-            released = any(is_call_to(e, '__release__') and e.depth == 0 for e in path.events)
+            released = any(is_call_to(e, '__release__') and e.depth == 0 and
+                           e.kind != 'leave' for e in path.events)
+            is_zero = bool(zero) and key_truth(zero[0]) is True
             ok = len(downs) == 1 and isinstance(downs[0]['aug'], ast.Sub) and \
                 _const_value(downs[0]['value']) == 1 and len(zero) == 1 and \
-                (zero[0]['value'] == released)
+                (is_zero == released)
             check.instance('R', 'aexit:-1,release-iff-zero{%s}/%s' % (
-                which, 'zero' if (zero and zero[0]['value']) else 'nested'), ok,
+                which, 'zero' if is_zero else 'nested'), ok,
                 where_fn(aexit.fn),
                 'one `_depth -= 1`; `__release__()` iff `_depth == 0` '
                 '(decrements=%d released=%s)' % (len(downs), released),
@@ -282,38 +296,52 @@ def run(check, an: Analysis):
                        'one pop, one schedule of the popped waiter on the success path',
                        path=rules.path_lines(path))
     # ---- B: available ----------------------------------------------------------------
+    from ..norm import function_predicate, bool_term, equivalent_terms
     avail = an.callee(LOCK, 'available')
-    paths = an.paths(avail)
+
+    def symbol(node):
+        return rules.normalise_state_aliases(ast.unparse(node))
+    got = function_predicate(avail.fn.node, symbol)
+    want = bool_term(ast.parse('self._owner is None or self._owner is %s'
+                               % rules.CURRENT_ACTIVITY, mode='eval').body, symbol)
+    want_eq = bool_term(ast.parse('self._owner is None or self._owner == %s'
+                                  % rules.CURRENT_ACTIVITY, mode='eval').body, symbol)
+    check.instance('B', 'available:predicate', got is not None and (
+        equivalent_terms(got, want) or equivalent_terms(got, want_eq)), where_fn(avail.fn),
+        '`available` == (owner is None or owner is the current activity)')
     nowait = set()
     for path in enter_paths:
         if path.normal and not any(e.kind == 'susp' and is_suspension(e)
                                    for e in path.events):
-            nowait.add(_enter_condition(path, fn_enter))
-    for path in paths:
-        if path.kind != 'return':
-            continue
-        free = [e for e in path.events if e.kind == 'test'
-                and e.get('key') == ('isnone', 'self._owner')]
-        value = path.outcome[1]
-        if free and free[0]['value']:
-            ok = isinstance(value, ast.Constant) and value.value is True
-            what = 'free lock -> True'
-            cond = 'free'
-        else:
-            ok = isinstance(value, ast.Compare) and len(value.ops) == 1 and \
-                isinstance(value.ops[0], (ast.Is, ast.Eq)) and \
-                ast.unparse(value.left) == 'self._owner' and \
-                rules.is_current_activity(value.comparators[0], avail.fn) and bool(free)
-            what = 'held lock -> `_owner is <current activity>`'
-            cond = 'own'
-        check.instance('B', 'available:%s' % cond, ok and cond in nowait,
-                       where_fn(avail.fn),
-                       '%s; __aenter__ does not wait under {%s}' % (what, ', '.join(
-                           sorted(nowait))), path=rules.path_lines(path))
+            nowait.add(_enter_condition(path))
     check.instance('B', 'nowait-conditions', nowait == {'free', 'own'}, where_fn(fn_enter),
                    '__aenter__ proceeds without waiting exactly when free or already owned: '
                    '%s' % sorted(nowait))
     check.stats.update(an.stats())
+
+
+def _stored_source(path, index, value, depth=4):
+    """'none' / 'next-waiter' / 'other': where the value stored as owner comes from"""
+    if isinstance(value, ast.Constant) and value.value is None:
+        return 'none'
+    if isinstance(value, ast.Name) and depth > 0:
+        found = rules.reaching_store(path, index, value.id)
+        if found is None:
+            return 'other'
+        pos, store = found
+        stmt = store.data.get('stmt')
+        if isinstance(stmt, ast.Assign) and isinstance(stmt.value, ast.Call) and \
+                isinstance(stmt.value.func, ast.Attribute) and \
+                stmt.value.func.attr == '__awake_next__' and \
+                isinstance(stmt.targets[0], (ast.Tuple, ast.List)):
+            first = stmt.targets[0].elts[0]
+            return 'next-waiter' if isinstance(first, ast.Name) and first.id == value.id \
+                else 'other'
+        if store.data.get('value') is not None:
+            return _stored_source(path, pos, store['value'], depth - 1)
+        if isinstance(stmt, ast.Assign) and isinstance(stmt.value, ast.Name):
+            return _stored_source(path, pos, stmt.value, depth - 1)
+    return 'other'
 
 
 def _const_value(node):
@@ -333,14 +361,14 @@ def _first_of_awake_next(fn, name: str) -> bool:
     return False
 
 
-def _enter_condition(path, fn) -> str:
+def _enter_condition(path) -> str:
     for event in path.events:
         if event.kind == 'test' and event.get('key') == ('isnone', 'self._owner') \
-                and event['value']:
+                and key_truth(event) is True:
             return 'free'
-    for event in path.events:
+    for index, event in enumerate(path.events):
         if event.kind == 'test':
-            found = _owner_compare(event, fn)
-            if found == 'same':
+            found = _owner_compare(event, path, index)
+            if found and found[0] == 'same':
                 return 'own'
     return 'other'
